@@ -18,7 +18,7 @@ import torch
 
 from .qbits import AWQBitsTensor
 from .qbytes import QBytesTensor
-from .qtensor import qfallback
+from .qtensor import QTensor, qfallback
 
 
 __all__ = ["get_qtensor_func", "register_qtensor_func"]
@@ -124,7 +124,10 @@ class QTensorLinear(torch.autograd.Function):
             else:
                 output = torch.ops.quanto.qbytes_mm(input, other._data, other._scale)
         else:
-            output = torch.matmul(input, other.t())
+            # No quantized kernel for these operands. The weights are dequantized before being transposed: a view
+            # operation on a quantized Parameter created outside torch.inference_mode() cannot be evaluated inside it
+            weights = other.dequantize() if isinstance(other, QTensor) else other
+            output = torch.matmul(input, weights.t())
         if bias is not None:
             output = output + bias
         return output
